@@ -20,7 +20,7 @@ type SchemaOpts struct {
 }
 
 var fieldNames = []string{"id", "name", "x", "y", "val", "n", "f", "b", "t", "e", "items", "kids", "next", "peer", "grid",
-	"tags", "u", "i", "alpha", "beta", "gamma", "count", "flag", "when", "big", "ratio", "kind", "owner", "parts", "lead", "aB", "zEd"}
+	"tags", "u", "i", "data", "alpha", "beta", "gamma", "count", "flag", "when", "big", "ratio", "kind", "owner", "parts", "lead", "aB", "zEd"}
 
 // ExecSchema generates a schema suited for execution workloads. Every object
 // type is reachable from Query.
